@@ -5,10 +5,14 @@ HERE = os.path.dirname(os.path.dirname(os.path.abspath(__file__)))
 rows = []
 def key(p):
     b = os.path.basename(os.path.dirname(p)); m = re.match(r"C(\d+)(?:_(\w))?$", b); return (int(m.group(1)), m.group(2) or "")
-n = caught = outside = 0
+n = caught = outside = missed = 0
 for mp in sorted(glob.glob(os.path.join(HERE, "seeded", "C*", "meta.json")), key=key):
     m = json.load(open(mp)); n += 1
     sid = m["seed"]; prop = m["property"]
+    if "not_reported_note" in m:
+        missed += 1
+        rows.append("| %s | %s | **not reported** (in the property's domain, beyond this machinery): %s |" % (sid, m.get("summary", "")[:170].replace("|", "/"), m["not_reported_note"][:260].replace("|", "/")))
+        continue
     if "domain_note" in m:
         outside += 1
         rows.append("| %s | %s | not claimed: %s |" % (sid, m.get("summary", "")[:170].replace("|", "/"), m["domain_note"][:200].replace("|", "/")))
@@ -26,4 +30,4 @@ head = "| seed | what it changes | caught by (first report) |\n|---|---|---|\n"
 i = d.index(head) + len(head); j = d.index("\n### 11.2")
 d = d[:i] + "\n".join(rows) + "\n" + d[j:]
 open(os.path.join(HERE, "DESIGN.md"), "w").write(d)
-print("seeds", n, "reported", caught, "outside domain", outside)
+print("seeds", n, "reported", caught, "outside domain", outside, "not reported", missed)
